@@ -135,6 +135,7 @@ func verbLevelIn(name string, levels map[string]int64) string {
 
 func checkC01(c *Ctx) {
 	r := c.R
+	r.Rule("R01.8", "the package-level verbs emit for every kind of default logger: each spine function that dispatches on the dynamic type of the default logger has an emitting arm for *logimp and for *Entry (what New() returns and what its chained setters return)")
 	r.Rule("R03.1", "(shared with C03) an admitted call produces output: the destination selected for a severity is never an empty per-level list while the documented routing names another (the routing decision function equals the documented one)")
 	r.Rule("R17.3", "(shared with C17) a refused registration leaves the level tables untouched")
 	r.Rule("R17.4", "(shared with C17) a successful registration records the treated-as level for EVERY level value given (including the zero value PanicLevel), so that the admission rule gates the new level as the level it is treated as")
@@ -163,6 +164,7 @@ func checkC01(c *Ctx) {
 		c01SingleRule(c, p, m)
 		c01Verbs(c, p, m, tags)
 		c01DebugMode(c, p)
+		c01DefaultKinds(c, p, m, "R01.8")
 		c03Routing(c, p, m)
 		c17Register(c, p, m)
 	}
@@ -829,5 +831,113 @@ func c01DebugMode(c *Ctx, p *Prog) {
 	}
 	if n == 0 {
 		r.OkTrivial("R01.7", "SetDebugMode:none", "-", "the package never switches debug mode")
+	}
+}
+
+// c01DefaultKinds: the package-level verbs work on whatever logger is the default: New() returns a *logimp, the
+// chained Set... methods return the embedded *Entry, and SetDefault accepts both. Every spine function that
+// dispatches on the dynamic type of the default logger has an arm for each of the package's own logger types, and
+// each arm reaches an emission.
+func c01DefaultKinds(c *Ctx, p *Prog, m *Model, rule string) {
+	r := c.R
+	dg := p.Global(p.Slog, "defaultLog")
+	if dg == nil {
+		r.Unk(rule, "default-kinds", "-", "defaultLog not found")
+		return
+	}
+	want := []string{"Entry", "logimp"}
+	n := 0
+	// the dispatching function: a spine function, or a private helper a spine function calls to obtain the logger
+	cand := map[*ssa.Function]bool{}
+	for fn := range m.Spine {
+		cand[fn] = true
+		for _, cs := range callsIn(fn) {
+			if h := calleeOf(cs); h != nil && h.Pkg == p.Slog && h.Object() != nil && !h.Object().Exported() && h.Signature.Recv() == nil {
+				cand[h] = true
+			}
+		}
+	}
+	var fns []*ssa.Function
+	for fn := range cand {
+		fns = append(fns, fn)
+	}
+	sort.Slice(fns, func(i, j int) bool { return shortName(fns[i]) < shortName(fns[j]) })
+	for _, fn := range fns {
+		arms := map[string]bool{}
+		emits := map[string]bool{}
+		for _, b := range fn.Blocks {
+			for _, in := range b.Instrs {
+				ta, ok := in.(*ssa.TypeAssert)
+				if !ok {
+					continue
+				}
+				if g, isG := globalLoad(strip(ta.X)); !isG || g != dg {
+					continue
+				}
+				tn := typeName(ta.AssertedType)
+				arms[tn] = true
+				okEdge := func(blk *ssa.BasicBlock) bool {
+					for _, g := range guardsOf(blk) {
+						cond, neg := normCond(g.If.Cond)
+						if ex, isEx := cond.(*ssa.Extract); isEx && ex.Tuple == ssa.Value(ta) && (g.Succ == 0) != neg {
+							return true
+						}
+					}
+					return false
+				}
+				// an emission site reachable from the ok edge of this assertion (dominated by it, or after the join of the arms) ...
+				siteBlocks := map[*ssa.BasicBlock]bool{}
+				for _, s := range m.Sites[fn] {
+					siteBlocks[s.Block()] = true
+				}
+				for _, blk := range fn.Blocks {
+					if !okEdge(blk) {
+						continue
+					}
+					seen := map[*ssa.BasicBlock]bool{}
+					stack := []*ssa.BasicBlock{blk}
+					for len(stack) > 0 {
+						x := stack[len(stack)-1]
+						stack = stack[:len(stack)-1]
+						if seen[x] {
+							continue
+						}
+						seen[x] = true
+						if siteBlocks[x] {
+							emits[tn] = true
+							break
+						}
+						stack = append(stack, x.Succs...)
+					}
+				}
+				// ... or (helper form) a return under that edge that hands a logger back
+				if !m.Spine[fn] {
+					for _, blk := range fn.Blocks {
+						ret, isRet := blk.Instrs[len(blk.Instrs)-1].(*ssa.Return)
+						if !isRet || !okEdge(blk) || len(ret.Results) == 0 {
+							continue
+						}
+						if !isNilConst(ret.Results[0]) {
+							emits[tn] = true
+						}
+					}
+				}
+			}
+		}
+		if len(arms) == 0 {
+			continue
+		}
+		n++
+		var missing []string
+		for _, w := range want {
+			if !arms[w] || !emits[w] {
+				missing = append(missing, "*"+w)
+			}
+		}
+		r.Check(len(missing) == 0, rule, "default-kinds:"+shortName(fn), p.FuncPos(fn), "an emitting arm for *Entry and for *logimp",
+			shortName(fn)+" has no emitting arm for a default logger of type "+strings.Join(missing, ", ")+": with such a default logger (e.g. SetDefault(slog.New(..).SetWriter(..)), which is a *Entry) the package-level verbs admit the call and then write nothing - and Panic/Fatal neither write nor terminate")
+	}
+	if n == 0 {
+		r.Unk(rule, "default-kinds", "-", "no spine function dispatches on the type of the default logger")
 	}
 }
